@@ -532,7 +532,7 @@ var tableIDs = func() []int {
 
 func genSeq(t *rapid.T) vk.SeqSpec {
 	alpha := rapid.SampledFrom([]string{"ACGT", "ACGT", "acgt", "ACGTacgt", "ACGTN", "ACGTURYKMSWacgtnx-*"}).Draw(t, "seq_alphabet")
-	return vk.DrawSeq(t, "seq", alpha, 0, vk.Pick(20000, 100000))
+	return vk.DrawSeq(t, "seq", alpha, 0, 100000)
 }
 
 func genOps(t *rapid.T) []Op {
